@@ -694,7 +694,19 @@ def run(chk):
     for name, fn in (("cmap", lambda: gen_cmaps(chk, tlc_maps)), ("hmtx", lambda: gen_hmtx(chk)), ("glyph", lambda: gen_glyphs(chk)),
                      ("loca", lambda: gen_loca(chk)), ("otl", lambda: gen_otl(chk, tlc_covs)), ("misc", lambda: gen_misc(chk)),
                      ("roundtrips", lambda: gen_roundtrips(chk))):
-        got = fn()
+        try:
+            got = fn()
+        except MachineryError:
+            raise
+        except Exception as e:
+            # an exception raised INSIDE fontTools while encoding/decoding a generated (valid) content is the
+            # codec refusing that content: one "raised" case for this generator; anything raised by harness code is ours
+            import traceback
+
+            tb = traceback.extract_tb(e.__traceback__)
+            if not tb or "/fontTools/" not in tb[-1].filename:
+                raise
+            got = [{"k": "raised", "what": name, "err": "%s: %s" % (type(e).__name__, e), "where": "%s:%d" % (tb[-1].filename.split("/fontTools/")[-1], tb[-1].lineno)}]
         chk.log("generated %d %s cases" % (len(got), name))
         cases += got
     chk.count(len(cases))
